@@ -201,9 +201,29 @@ def spelling_sequence(rng) -> Dict[str, Any]:
                           "maximize": mx if rng.random() < 0.8 else not mx} for expr, coef in asks[: rng.randint(2, 4)]]}
 
 
+def near_equal_bounds(rng) -> Dict[str, Any]:
+    """An input bounded by the assumptions and, a few 1e-6 (relative) tighter, by the guarantees; the objective runs
+    along that variable, so the optimum is the tighter bound - 5 to 50 times further away than the 1e-6 of the reading."""
+    ins, outs = ["i1"], ["o1"]
+    c = gen.rcontract(rng, ins, outs, "int", bounded=True)
+    kk = float(rng.choice([100, 50, 1000, 12]))
+    sg = rng.choice([1.0, -1.0])
+    rel = rng.choice([5e-6, 1e-5, 5e-5])
+    c["a"] = [t for t in c["a"] if set(t["c"]) != {"i1"}] + [gen.T({"i1": sg}, kk), gen.T({"i1": -sg}, kk)]
+    c["g"] = c["g"] + [gen.T({"i1": sg}, kk * (1 - rel))]
+    if rng.random() < 0.5:
+        c["g"].reverse()
+    m = rng.choice([1, 2, 3])
+    coef = {"i1": int(sg) * m}
+    return {"contract": c, "simplify": False, "objective": coef, "expr": objective_string(rng, coef),
+            "maximize": True}
+
+
 def gen_case(rng) -> Dict[str, Any]:
     if rng.random() < 0.05:
         return spelling_sequence(rng)
+    if rng.random() < 0.04:
+        return near_equal_bounds(rng)
     style = rng.choice(["int", "int", "dyadic"])
     ins = ["i1", "i2"][: rng.randint(1, 2)]
     outs = ["o1", "o2", "o3"][: rng.randint(1, 3)]
